@@ -38,10 +38,17 @@ FILE_NAMES = ['tests.py', 'tests.py', 'ftests.py', 'test_a.py', 'test_b.py',
               'TESTS.py']
 
 
-def gen_tree(rng, prefix, depth=4, p_init=0.75):
+class FileMap(dict):
+    """{relative path: kind}; .links = relative directories that are
+    realised as symbolic links to a directory outside the search paths."""
+    links = ()
+
+
+def gen_tree(rng, prefix, depth=4, p_init=0.75, p_link=0.0):
     """Returns {relative path: kind} with kind 'py' | 'init' | 'other'.
     First-level names carry the case prefix so that they are unique."""
-    files = {}
+    files = FileMap()
+    links = set()
 
     def fill(rel, d):
         names = set()
@@ -59,6 +66,10 @@ def gen_tree(rng, prefix, depth=4, p_init=0.75):
         for _ in range(rng.randint(0, 3)):
             subs.add(rng.choice(DIR_NAMES))
         for s in subs:
+            if p_link and rng.random() < p_link and \
+                    not any(rel.startswith(l + '/') or rel == l
+                            for l in links):
+                links.add(os.path.join(rel, s))
             fill(os.path.join(rel, s), d - 1)
 
     for i in range(rng.randint(1, 3)):
@@ -69,6 +80,8 @@ def gen_tree(rng, prefix, depth=4, p_init=0.75):
     # a plain file or two at the very top
     if rng.random() < 0.4:
         files['tests.py'] = 'py'
+    files.links = sorted(l for l in links
+                         if any(f.startswith(l + '/') for f in files))
     return files
 
 
@@ -76,6 +89,15 @@ def write_tree(root, files, order=None):
     items = list(files.items())
     if order is not None:
         order.shuffle(items)
+    # directories realised as symbolic links: their content lives in
+    # <root>/.linked/<n> (a name no walk enters), the link carries the name
+    links = {}
+    for n, l in enumerate(getattr(files, 'links', ())):
+        target = os.path.join(root, '.linked', 'd%d' % n)
+        os.makedirs(target, exist_ok=True)
+        os.makedirs(os.path.dirname(os.path.join(root, l)), exist_ok=True)
+        os.symlink(target, os.path.join(root, l))
+        links[l] = target
     for rel, kind in items:
         p = os.path.join(root, rel)
         os.makedirs(os.path.dirname(p), exist_ok=True)
